@@ -7527,3 +7527,144 @@ func init() {
 	// buffer whose content is about to be sent (C18)
 	registerExtra("C18", func(c *Ctx, r *Report) { writersDoNotRetain(c, r, "C18-R15") })
 }
+
+// ---------- C20-R16: nothing is allocated to the size a backend merely announces ----------
+func init() { registerExtra("C20", extraC20NoAllocByDeclaredLength) }
+
+func extraC20NoAllocByDeclaredLength(c *Ctx, r *Report) {
+	r.Rule("C20-R16", "no buffer is sized from a length the backend only declares: an argument of (*bytes.Buffer).Grow, make([]byte, n[, m]) or slices.Grow that derives from http.Response.ContentLength (or a parsed Content-Length header) is bounded first — it passes through min(…, K), or the allocation is control-dependent on an upper-bound comparison of that value. The body itself is read through io.LimitReader (C20-R2); pre-allocating what the header claims defeats that limit (a 2 GiB announcement costs 2 GiB before a byte is read)", 0)
+	declared := func(v ssa.Value) bool {
+		if mentionsField(v, "net/http", "Response", "ContentLength", 4) {
+			return true
+		}
+		// strconv.Atoi/ParseInt(resp.Header.Get("Content-Length"))
+		found := false
+		var walk func(v ssa.Value, d int)
+		walk = func(v ssa.Value, d int) {
+			if v == nil || d == 0 || found {
+				return
+			}
+			if call, ok := v.(*ssa.Call); ok {
+				ci := describeCall(&call.Call)
+				if ci.Pkg == "net/http" && ci.Recv == "Header" && ci.Name == "Get" && len(call.Call.Args) == 2 {
+					if k, ok := constString(call.Call.Args[1]); ok && strings.EqualFold(k, "Content-Length") {
+						found = true
+						return
+					}
+				}
+			}
+			if in, ok := v.(ssa.Instruction); ok {
+				for _, op := range in.Operands(nil) {
+					if *op != nil {
+						walk(*op, d-1)
+					}
+				}
+			}
+		}
+		walk(v, 5)
+		return found
+	}
+	bounded := func(v ssa.Value, at *ssa.BasicBlock) bool {
+		// min(n, K) anywhere in the expression
+		hasMin := false
+		var walk func(v ssa.Value, d int)
+		walk = func(v ssa.Value, d int) {
+			if v == nil || d == 0 {
+				return
+			}
+			if call, ok := v.(*ssa.Call); ok {
+				if b, ok := call.Call.Value.(*ssa.Builtin); ok && b.Name() == "min" {
+					hasMin = true
+				}
+			}
+			if in, ok := v.(ssa.Instruction); ok {
+				for _, op := range in.Operands(nil) {
+					if *op != nil {
+						walk(*op, d-1)
+					}
+				}
+			}
+		}
+		walk(v, 4)
+		if hasMin {
+			return true
+		}
+		for _, cf := range normFacts(condFacts(at)) {
+			bo, ok := cf.Cond.(*ssa.BinOp)
+			if !ok {
+				continue
+			}
+			dx, dy := declared(bo.X), declared(bo.Y)
+			if dx == dy {
+				continue
+			}
+			op := bo.Op
+			if dy { // mirror to: declared op other
+				switch op {
+				case token.LSS:
+					op = token.GTR
+				case token.LEQ:
+					op = token.GEQ
+				case token.GTR:
+					op = token.LSS
+				case token.GEQ:
+					op = token.LEQ
+				}
+			}
+			other := bo.Y
+			if dy {
+				other = bo.X
+			}
+			if k, isK := constInt(other); isK && k <= 0 {
+				continue // `> 0` is a lower bound
+			}
+			// declared < X / <= X holds, or declared > X / >= X is false
+			if ((op == token.LSS || op == token.LEQ) && cf.True) || ((op == token.GTR || op == token.GEQ) && !cf.True) {
+				return true
+			}
+		}
+		return false
+	}
+	n := 0
+	for _, f := range c.Funcs {
+		if !c.inRepo(f) {
+			continue
+		}
+		eachInstr(f, func(in ssa.Instruction) {
+			var sizes []ssa.Value
+			what := ""
+			switch x := in.(type) {
+			case *ssa.MakeSlice:
+				sizes, what = []ssa.Value{x.Len, x.Cap}, "make"
+			case *ssa.Call:
+				ci := describeCall(&x.Call)
+				switch {
+				case ci.Pkg == "bytes" && ci.Recv == "Buffer" && ci.Name == "Grow" && len(x.Call.Args) == 2:
+					sizes, what = []ssa.Value{x.Call.Args[1]}, "Buffer.Grow"
+				case ci.Pkg == "slices" && ci.Name == "Grow" && len(x.Call.Args) == 2:
+					sizes, what = []ssa.Value{x.Call.Args[1]}, "slices.Grow"
+				case ci.Pkg == "strings" && ci.Recv == "Builder" && ci.Name == "Grow" && len(x.Call.Args) == 2:
+					sizes, what = []ssa.Value{x.Call.Args[1]}, "Builder.Grow"
+				}
+			}
+			for _, sz := range sizes {
+				if sz == nil || !declared(sz) {
+					continue
+				}
+				n++
+				key := fmt.Sprintf("%s:%s-by-declared-length", fname(f), what)
+				if bounded(sz, in.Block()) {
+					r.OK("C20-R16", key, in.Pos(), "the declared length is bounded before it sizes the allocation")
+				} else {
+					r.Bad("C20-R16", key, in.Pos(), what+" is sized by the length the backend declares, with no upper bound: a response that merely announces a huge Content-Length makes Olla allocate that much (or panic on a negative / overflowing size) before the read limit applies")
+				}
+			}
+		})
+	}
+	if n == 0 {
+		r.Triv("C20-R16", "allocations-by-declared-length", token.NoPos, "no allocation is sized from a declared length")
+	}
+	addMutants(Mutant{Prop: "C20", Name: "buffer-grown-to-declared-length", File: "internal/adapter/discovery/http_client.go", Rule: "C20-R16",
+		Old: "	body, err := io.ReadAll(limitedReader)\n", New: "	var sized bytes.Buffer\n	if resp.ContentLength > 0 {\n		sized.Grow(int(resp.ContentLength))\n	}\n	body, err := io.ReadAll(limitedReader)\n",
+		Edits: []Edit{{"internal/adapter/discovery/http_client.go", "import (\n", "import (\n	\"bytes\"\n"}}})
+}
